@@ -135,6 +135,8 @@ def make_partition_class(kind, K=3, rng=None, observer=None, pre_observer=None):
         _K = K
         _observer = observer
         _pre_observer = pre_observer
+        _glog = []          # every make_children call of every instance of this class, in order
+        _instances = []
 
         def __init__(self, domain=None, node=P_node):
             if kind in ("kary", "randKary"):
@@ -144,6 +146,7 @@ def make_partition_class(kind, K=3, rng=None, observer=None, pre_observer=None):
             self.root._vid = 0
             self._all = [self.root]
             self._calls = []
+            Instr._instances.append(self)
 
         def make_children(self, parent, newlayer=False):
             orig = self.node
@@ -176,6 +179,7 @@ def make_partition_class(kind, K=3, rng=None, observer=None, pre_observer=None):
                         "dim": dim, "pts": pts, "created": [c._vid for c in created],
                         "was_leaf": None}
                 self._calls.append(call)
+                Instr._glog.append(call)
                 if Instr._observer is not None:
                     Instr._observer(self, parent, call)
 
